@@ -296,4 +296,47 @@ theorem rightIso_kron_thru_left {cj : α → α} (hcj : ConjLike cj) (h1 : cj 1 
           sumN_delta_delta n (a / s.dL) (a' / s.dL) hq]
     _ = delta a' a := delta_divmod a' a s.dL hL
 
+/-- a local MPS of the covering: sorted index map and tensors (outer legs trivial) -/
+structure LocalOK (L : Nat) (l : List Nat × List (RSite α)) : Prop where
+  chain : ChainOK 1 l.2
+  len : l.1.length = l.2.length
+  sorted : l.1.Pairwise (· < ·)
+  inside : ∀ j ∈ l.1, j < L
+  last : 0 < lastDim 1 l.2
+
+theorem padChain_length (dphys : Nat → Nat) (n : Nat) : ∀ (i χ : Nat) (im : List Nat) (ls : List (RSite α)),
+    (padChain dphys n i χ im ls).length = n := by
+  induction n with
+  | zero => intro i χ im ls; rfl
+  | succ n ih =>
+    intro i χ im ls
+    cases im with
+    | nil => simp [padChain, ih]
+    | cons j im =>
+      cases ls with
+      | nil => simp [padChain, ih]
+      | cons s ls =>
+        by_cases hij : i = j
+        · simp [padChain, hij, ih]
+        · simp [padChain, hij, ih]
+
+theorem padChain_chainOK (dphys : Nat → Nat) (n : Nat) : ∀ (i χ : Nat) (im : List Nat) (ls : List (RSite α)),
+    ChainOK χ ls → im.length = ls.length → ChainOK χ (padChain dphys n i χ im ls) := by
+  induction n with
+  | zero => intro i χ im ls _ _; trivial
+  | succ n ih =>
+    intro i χ im ls hc hlen
+    cases im with
+    | nil => simp only [padChain]; exact ⟨rfl, ih _ _ [] [] trivial rfl⟩
+    | cons j im =>
+      cases ls with
+      | nil => simp only [padChain]; exact ⟨rfl, ih _ _ [] [] trivial rfl⟩
+      | cons s ls =>
+        by_cases hij : i = j
+        · simp only [padChain, hij, if_true]
+          exact ⟨hc.1, ih _ _ im ls hc.2 (by simpa using hlen)⟩
+        · simp only [padChain, hij, if_false]
+          exact ⟨rfl, ih _ _ (j :: im) (s :: ls) hc hlen⟩
+
+
 end TenpyModel.C07Ext
